@@ -3,16 +3,28 @@
 Three parts (BUILDER_GUIDE):
  1. correspondence of Model/Eval.v with labrea on histories mixing failing and succeeding
     evaluations (user callables raising several exception types on chosen inputs: bodies, pipeline
-    steps, callbacks, effects, case predicates, domain predicates);
+    steps, callbacks, effects, case predicates, domain predicates), incl. the directed streams
+    "raising predicates" (option domains / case-when predicates raising each exception class on a
+    chosen value or always, at the root and nested) and "failing callbacks / effects on cached
+    datasets" (the same dictionary evaluated again after the failure, with and without
+    LABREA.EFFECTS.DISABLED / LABREA.CACHE.DISABLED);
  2. the property's own oracle on the implementation, independent of the model (exception type,
     `.source` identity, the `__cause__` chain down to the very exception OBJECT that user code
     raised, `.key` of missing options, what a failing evaluation stores, later outcomes with the
-    failed evaluation deleted, supplying the missing option afterwards);
+    failed evaluation deleted, supplying the missing option afterwards; independent recomputation of
+    root options (lookup / default / domain test), root case-when, root switch, root coalesce; the first
+    exception raised by user code is the end of the chain in graphs without handlers; a failing root
+    evaluation of a dataset / cached node adds nothing to that object's own cache; values computed by a
+    failed evaluation never come back), also on an ORACLE-ONLY stream the model cannot express: container
+    domains (set / frozenset / dict / user container classes whose membership test raises, unhashable
+    values), predicates written in plain Python raising genuine exceptions, impure (call-counting) bodies
+    with flaky effects, disable_effects() / enable_effects() between evaluations;
  3. witness replay of the known finding D20.
 """
 import contextlib
 import functools
 import types
+from collections.abc import Container as _Container
 
 import core
 import coreprop as cp
@@ -99,6 +111,37 @@ FAMILY = [
                 ("cached", 50, ("tolist", ("map", ("call", 100, [opt(K(A))]), [(K(A), val([1, 5, 2]))])))],
          ops=[ev(0, {A: 5}), ev(0, {A: 1}), ev(0, {A: 1, B: 2}), ev(1, {A: 5, B: 1}), ev(1, {A: 1, B: 1}), ev(1, {A: 1}),
               ev(2, {}), ev(2, {A: 0})]),
+    # Option._enforce_domain: the predicate raises (on a chosen value / always, several classes), returns False,
+    # a container domain; at the root, behind a default, inside a body and inside a dataset
+    dict(ftable={100: ("tag_raise_on", ("j", 5), 4), 101: ("tag_raise_on", ("j", lit("b")), 3), 102: ("raise", 1),
+                 103: ("eq", ("j", 1)), 104: ("tag",), 105: ("tag",), 106: ("tag_raise_on", ("j", None), 6)},
+         env={1: dict(fid=104, kwargs=[opt(K(A), None, ("fnvalue", 100))])},
+         exprs=[opt(K(A), None, ("fnvalue", 100)), opt(K(B), val(lit("b")), ("fnvalue", 101)),
+                ("call", 105, [opt(K(A), None, ("fnvalue", 102))]), ("dataset", 1), opt(K(A), None, ("fnvalue", 103)),
+                ("list", [val(0), opt(K(C), opt(K(A), None, ("fnvalue", 106)), None)]), opt(K(A), None, val([1, 2, None]))],
+         ops=[ev(0, {A: 5}), ev(0, {A: 1}), ev(0, {}), ev(1, {}), ev(1, {B: 1}), ev(1, {B: lit("b")}), ev(2, {A: 0}), ev(2, {}),
+              ev(3, {A: 5}), ev(3, {A: 2}), ev(3, {A: 5}), ev(3, {A: 2}), ev(4, {A: 1}), ev(4, {A: 2}),
+              ev(5, {A: None}), ev(5, {A: 0}), ev(5, {A: None, C: 1}), ev(6, {A: 5}), ev(6, {A: None}), ev(6, {A: [1]})]),
+    # CaseWhen._evaluate: a predicate raising in front of a matching case / of the default, per exception class
+    dict(ftable={100: ("tag_raise_on", ("j", None), 4), 101: ("truthy",), 102: ("tag_raise_on", ("j", 2), 6),
+                 103: ("eq", ("j", 0)), 104: ("raise", 3)}, env={},
+         exprs=[("case", opt(K(A)), [(("fnvalue", 100), val(lit("x"))), (("fnvalue", 101), val(lit("y")))], val(lit("z"))),
+                ("case", opt(K(A)), [(("fnvalue", 103), val(1)), (("fnvalue", 102), val(2)), (("fnvalue", 101), val(3))], None),
+                ("cached", 50, ("case", opt(K(A)), [(("fnvalue", 103), val(1)), (("fnvalue", 104), val(2))], opt(K(B))))],
+         ops=[ev(0, {A: None}), ev(0, {A: 1}), ev(0, {A: None}), ev(0, {}),
+              ev(1, {A: 0}), ev(1, {A: 2}), ev(1, {A: 1}), ev(1, {A: 2}),
+              ev(2, {A: 0}), ev(2, {A: 1, B: 1}), ev(2, {A: 1}), ev(2, {A: 0}), ev(2, {A: 1, B: 1})]),
+    # dataset: an effect raising after body and callback succeeded, the same dictionary again, with the effects
+    # switched off by option, with the cache switched off; a second dataset computed from the first
+    dict(ftable={100: ("tag",), 101: ("tag",), 102: ("tag_raise_on", ("t", 101, [("t", 100, [("j", 2)])]), 5),
+                 103: ("tag",), 104: ("tag_raise_on", ("t", 100, [("j", 0)]), 2)},
+         env={1: dict(fid=100, kwargs=[opt(K(A))], callback=("pstep", 101, []), effects=[("pstep", 102, [])]),
+              2: dict(fid=100, kwargs=[opt(K(A))], effects=[("pstep", 103, []), ("pstep", 104, [])]),
+              3: dict(fid=103, kwargs=[("dataset", 2)])},
+         exprs=[("dataset", 1), ("dataset", 2), ("dataset", 3)],
+         ops=[ev(0, {A: 2}), ev(0, {A: 2}), ev(0, {A: 2, 1: {5: {3: True}}}), ev(0, {A: 2}), ev(0, {A: 1}), ev(0, {A: 2}, True),
+              ev(1, {A: 0}), ev(1, {A: 0, 1: {5: {3: True}}}), ev(1, {A: 0}), ev(2, {A: 0}), ev(2, {A: 1}), ev(2, {A: 0}),
+              ev(1, {A: 0, 1: {2: {3: True}}})]),
 ]
 
 
@@ -118,6 +161,15 @@ class FailGen(gen.Gen):
         if r < 0.35:
             return self.newf(("raise", rng.randint(1, 7)))
         return self.newf(("tag",))
+
+    def option(self, depth=0):
+        """option domains whose predicate raises (a chosen value / always, any class) in random graphs too"""
+        o = super().option(depth)
+        rng = self.rng
+        if self.f["with_domains"] and rng.random() < 0.06:
+            d = ("raise", rng.randint(1, 7)) if rng.random() < 0.2 else ("tag_raise_on", ("j", rng.choice(BADS)), rng.randint(1, 7))
+            o = ("option", o[1], o[2], ("fnvalue", self.newf(d)))
+        return o
 
 
 def harden(scn, rng):
@@ -188,15 +240,315 @@ def generate(ctx, n):
     return scns
 
 
+# ----------------------------------------------------------------------------- directed streams (model-expressible)
+
+PKEYS = [K(10), K(11), K(12), K(gen.SEC, gen.SX)]
+PVALS = [5, lit("b"), None, 1, 0, lit("a"), 2, True, False]
+
+
+def _at(key, v):
+    """the dictionary {key: v} for a flat or section key"""
+    if len(key) == 1:
+        return {key[0][1]: v}
+    return {key[0][1]: {key[1][1]: v}}
+
+
+def _merge(a, b):
+    out = dict(a)
+    for k, v in b.items():
+        out[k] = _merge(out[k], v) if isinstance(v, dict) and isinstance(out.get(k), dict) else v
+    return out
+
+
+def rand_pred(g, bad):
+    """a predicate description: raises class n on `bad` / always, or an ordinary total predicate"""
+    rng = g.rng
+    r = rng.random()
+    if r < 0.55:
+        return g.newf(("tag_raise_on", ("j", bad), rng.randint(1, 7)))
+    if r < 0.65:
+        return g.newf(("raise", rng.randint(1, 7)))
+    if r < 0.8:
+        return g.newf(("eq", ("j", rng.choice(PVALS))))
+    if r < 0.9:
+        return g.newf(("in", [("j", v) for v in rng.sample(PVALS, 3)]))
+    return g.newf(("truthy",))
+
+
+def embed(g, x):
+    """x at the root or nested one or two levels deep in nodes that hand the caller's dictionary on"""
+    rng = g.rng
+    r = rng.random()
+    if r < 0.30:
+        return x
+    if r < 0.42:
+        return ("call", g.newf(("tag",)), [x] + [("value", ("j", 0))] * rng.randint(0, 1))
+    if r < 0.52:
+        return ("list", [("value", ("j", 0)), x])
+    if r < 0.62:
+        return ("option", K(12), x, None)                 # the default of another option
+    if r < 0.72:
+        c = g.next_c
+        g.next_c += 1
+        return ("cached", c, x)
+    if r < 0.80:
+        return ("apply", x, ("pstep", g.newf(("tag",)), []))
+    if r < 0.88:
+        return ("dict", [(("j", 1), x)])
+    dsid = len(g.env) + 1
+    g.env[dsid] = dict(fid=g.newf(("tag",)), kwargs=[x], cache=rng.choice(["mem", "mem", "none"]))
+    return ("dataset", dsid)
+
+
+def gen_predicates(rng, n):
+    """option domains and case-when predicates that raise: every exception class of the harness, on a chosen
+    value or always, in front of a matching case / of the default, the tested value coming from the dictionary
+    or from the option's default; the node at the root and nested; each dictionary evaluated more than once"""
+    scns = []
+    for i in range(n):
+        g = FailGen(rng)
+        key = rng.choice(PKEYS)
+        bad = rng.choice(PVALS)
+        exprs = []
+        if i % 2 == 0:
+            dflt = ("value", ("j", rng.choice([bad, rng.choice(PVALS)]))) if rng.random() < 0.3 else None
+            if rng.random() < 0.85:
+                dom = ("fnvalue", rand_pred(g, bad))
+            else:
+                dom = ("value", ("j", rng.sample(PVALS, 3)))
+            o = ("option", key, dflt, dom)
+            exprs = [o, embed(g, embed(g, o))]
+            if rng.random() < 0.4:    # the option as the dispatch of a case / switch
+                exprs.append(("switch", o, [(("j", v), ("value", ("j", lit("s")))) for v in rng.sample(PVALS[:7], 2)],
+                              ("value", ("j", lit("d"))) if rng.random() < 0.5 else None))
+        else:
+            cases = []
+            for _ in range(rng.randint(1, 3)):
+                res = ("value", ("j", rng.choice(PVALS))) if rng.random() < 0.7 else ("option", K(12), None, None)
+                cases.append((("fnvalue", rand_pred(g, bad)), res))
+            dflt = None if rng.random() < 0.4 else (("value", ("j", lit("z"))) if rng.random() < 0.7 else ("option", K(11), None, None))
+            disp = ("option", key, ("value", ("j", bad)) if rng.random() < 0.2 else None, None)
+            c = ("case", disp, cases, dflt)
+            exprs = [c, embed(g, embed(g, c))]
+        dicts = [_at(key, bad), _at(key, rng.choice(PVALS)), {}, _at(key, rng.choice(PVALS))]
+        dicts = [(_merge(d, {12: rng.choice(PVALS)}) if rng.random() < 0.5 else d) for d in dicts]
+        ops = []
+        for _ in range(rng.randint(8, 11)):
+            ops.append(("evaluate", rng.randrange(len(exprs)), False, False, rng.choice(dicts)))
+        ops += [("evaluate", 0, False, False, dicts[0]), ("evaluate", len(exprs) - 1, False, False, dicts[0])]
+        scns.append(dict(ftable=dict(g.ftable), env=dict(g.env), exprs=exprs, ops=ops))
+    return scns
+
+
+def gen_effects(rng, n):
+    """cached datasets whose body / callback / effects raise on chosen values (or always): the same dictionary is
+    evaluated again right after the failure, then with the effects switched off (LABREA.EFFECTS.DISABLED, or the
+    dataset built with disable_effects()), with the cache switched off, and through a second dataset / a with_options
+    copy computed from the first"""
+    scns = []
+    for i in range(n):
+        g = FailGen(rng)
+        key = rng.choice(PKEYS)
+        vals = rng.sample(PVALS[:7], 3)
+        body = g.newf(("tag",) if rng.random() < 0.8 else ("tag_raise_on", ("j", vals[2]), rng.randint(1, 7)))
+        d = dict(fid=body, kwargs=[("option", key, None, None)])
+        shape = lambda v: ("t", body, [("j", v)])   # noqa
+        if rng.random() < 0.45:
+            cb = g.newf(("tag",) if rng.random() < 0.6 else ("tag_raise_on", shape(vals[1]), rng.randint(1, 7)))
+            d["callback"] = ("pstep", cb, [])
+            inner = shape
+            shape = lambda v, _i=inner, _cb=cb: ("t", _cb, [_i(v)])   # noqa
+        effs = []
+        for _ in range(rng.randint(1, 2)):
+            r = rng.random()
+            if r < 0.6:
+                effs.append(("pstep", g.newf(("tag_raise_on", shape(vals[0]), rng.randint(1, 7))), []))
+            elif r < 0.7:
+                effs.append(("pstep", g.newf(("raise", rng.randint(1, 7))), []))
+            else:
+                effs.append(("pstep", g.newf(("tag",)), []))
+        d["effects"] = effs
+        if rng.random() < 0.12:
+            d["effects_disabled"] = True
+        if rng.random() < 0.1:
+            d["cache"] = "none"
+        if rng.random() < 0.2:
+            d["default_options"] = _at(key, vals[0])
+        g.env[1] = d
+        exprs = [("dataset", 1)]
+        r = rng.random()
+        if r < 0.35:
+            g.env[2] = dict(fid=g.newf(("tag",)), kwargs=[("dataset", 1)])
+            exprs.append(("dataset", 2))
+        elif r < 0.55:
+            g.env[2] = dict(derived=1, how=rng.choice(["with_options", "with_default_options"]), preset=_at(key, rng.choice(vals)))
+            exprs.append(("dataset", 2))
+        elif r < 0.75:
+            exprs.append(("cached", 60, ("call", g.newf(("tag",)), [("dataset", 1)])))
+        off = {1: {5: {3: True}}}
+        ops = []
+        for _ in range(rng.randint(3, 5)):
+            o = _at(key, rng.choice(vals)) if rng.random() < 0.9 else {}
+            i_ = rng.randrange(len(exprs))
+            ops.append(("evaluate", i_, False, False, o))
+            r = rng.random()
+            if r < 0.55:
+                ops.append(("evaluate", i_, False, False, o))
+            if r < 0.75 and rng.random() < 0.6:
+                ops.append(("evaluate", rng.randrange(len(exprs)), False, False, _merge(o, off)))
+            if rng.random() < 0.15:
+                ops.append(("evaluate", i_, rng.random() < 0.5, False, _merge(o, {1: {2: {3: True}}}) if rng.random() < 0.5 else o))
+            if rng.random() < 0.5:
+                ops.append(("evaluate", 0, False, False, o))
+        scns.append(dict(ftable=dict(g.ftable), env=dict(g.env), exprs=exprs, ops=ops))
+    return scns
+
+
+# ----------------------------------------------------------------------------- the oracle-only stream
+
+PYPREDS = {                                    # plain Python predicates: they raise genuine exceptions on some values
+    "lt2": lambda v: v < 2,                    # TypeError for None / str / list / dict
+    "len1": lambda v: len(v) == 1,             # TypeError for int / None / bool
+    "neg": lambda v: -v <= 0,                  # TypeError for str / None / list
+    "div": lambda v: 10 // v >= 0,             # ZeroDivisionError for 0 / False, TypeError for str / None
+    "attr": lambda v: v.startswith("a"),       # AttributeError for everything but str
+    "idx": lambda v: v[0] == 1,                # TypeError for int / None, IndexError for [] / '', KeyError for {}
+    "true": lambda v: True,
+}
+XVALS = [5, lit("b"), None, 1, 0, lit("a"), 2, True, [], [1, 2], [lit("a")], {gen.SX: 1}, lit(""), [[1]]]
+
+
+def gen_extended(rng, n):
+    """scenarios outside the model's universe (oracle only):
+    (a) container domains -- set, frozenset, dict, tuple, a user container class whose membership test delegates
+        to a set (hashing an unhashable value raises inside it) or raises a chosen class on a chosen value -- with
+        hashable and unhashable values in the dictionary;
+    (b) predicates written in plain Python (comparison, len, arithmetic, indexing, attribute access) as option
+        domains and case-when predicates, over values of every JSON type;
+    (c) impure bodies (the value embeds the body's call counter) with effects that fail on the first k calls or on
+        chosen values; the same dictionary again after the failure; effects switched off by option or by
+        disable_effects() / enable_effects() between evaluations"""
+    scns = []
+    for i in range(n):
+        g = FailGen(rng)
+        key = rng.choice(PKEYS)
+        kind = i % 3
+        if kind == 0:
+            members = rng.sample([5, lit("b"), None, 1, 0, lit("a"), 2], rng.randint(0, 4))
+            ck = rng.choice(["set", "frozenset", "dict", "tuple", "rec", "rec", "rec_raise"])
+            dom = ("pydomain", ck, members, rng.choice(XVALS), rng.randint(1, 7))
+            dflt = ("value", ("j", rng.choice(XVALS))) if rng.random() < 0.25 else None
+            o = ("option", key, dflt, dom)
+            exprs = [o, embed(g, embed(g, o))]
+            vals = rng.sample(XVALS, 4) + [dom[3]] + members[:1]
+        elif kind == 1:
+            if rng.random() < 0.5:
+                o = ("option", key, None, ("fnvalue", g.newf(("py", rng.choice(sorted(PYPREDS))))))
+            else:
+                cases = [(("fnvalue", g.newf(("py", rng.choice(sorted(PYPREDS))))), ("value", ("j", j)))
+                         for j in range(rng.randint(1, 3))]
+                o = ("case", ("option", key, None, None), cases, ("value", ("j", lit("z"))) if rng.random() < 0.6 else None)
+            exprs = [o, embed(g, embed(g, o))]
+            vals = rng.sample(XVALS, 6)
+        else:
+            body = g.newf(("count",))
+            vals = rng.sample([5, lit("b"), None, 1, 0, lit("a"), 2], 3)
+            effs = []
+            for _ in range(rng.randint(1, 2)):
+                r = rng.random()
+                if r < 0.45:
+                    effs.append(("pstep", g.newf(("raise_first", rng.randint(1, 2), rng.randint(1, 7))), []))
+                elif r < 0.85:
+                    effs.append(("pstep", g.newf(("raise_on_inner", ("j", vals[0]), rng.randint(1, 7))), []))
+                else:
+                    effs.append(("pstep", g.newf(("tag",)), []))
+            d = dict(fid=body, kwargs=[("option", key, None, None)], effects=effs)
+            if rng.random() < 0.3:
+                cb = ("raise_on_inner", ("j", vals[1]), rng.randint(1, 7)) if rng.random() < 0.5 else ("raise_first", 1, rng.randint(1, 7))
+                d["callback"] = ("pstep", g.newf(cb), [])
+            g.env[1] = d
+            exprs = [("dataset", 1)]
+            if rng.random() < 0.4:
+                g.env[2] = dict(fid=g.newf(("tag",)), kwargs=[("dataset", 1)])
+                exprs.append(("dataset", 2))
+        ops = []
+        if kind < 2:
+            dicts = [_at(key, v) for v in vals] + [{}]
+            for _ in range(rng.randint(8, 12)):
+                ops.append(("evaluate", rng.randrange(len(exprs)), False, False, rng.choice(dicts)))
+        else:
+            off = {1: {5: {3: True}}}
+            for _ in range(rng.randint(3, 5)):
+                o = _at(key, rng.choice(vals))
+                ops.append(("evaluate", 0, False, False, o))
+                r = rng.random()
+                if r < 0.5:
+                    ops.append(("evaluate", 0, False, False, o))
+                elif r < 0.7:
+                    ops.append(("evaluate", 0, False, False, _merge(o, off)))
+                elif r < 0.9:
+                    ops += [("disable_effects", 0, False, False, {}), ("evaluate", 0, False, False, o)]
+                    if rng.random() < 0.6:
+                        ops.append(("enable_effects", 0, False, False, {}))
+                if rng.random() < 0.4:
+                    ops.append(("evaluate", rng.randrange(len(exprs)), False, False, o))
+        scns.append(dict(ftable=dict(g.ftable), env=dict(g.env), exprs=exprs, ops=ops, ext=True))
+    return scns
+
+
 # ----------------------------------------------------------------------------- running a history, keeping the objects
 
 
 class World12(core.World):
-    """core.World whose caches also record every set() with its arguments"""
+    """core.World whose caches also record every set() with its arguments, plus the function kinds of the
+    oracle-only stream: ("py", name) plain Python predicates (genuine exceptions, recorded as objects),
+    ("count",) impure bodies whose value embeds their call counter, ("raise_first", k, n) raising on the first
+    k calls, ("raise_on_inner", bad, n) raising when `bad` occurs anywhere inside an argument"""
 
     def __init__(self, ftable):
         super().__init__(ftable)
         self.sets = []
+        self.cur_op = None
+        self.ncalls = {}
+        self.stamp_op = {}           # (fid, n) -> the op during which the n-th call of the counting body fid ran
+
+    def fn(self, fid, arity=None):
+        if fid in self.fns:
+            return self.fns[fid]
+        desc = self.ftable.get(fid, ("tag",))
+        if desc[0] not in ("py", "count", "raise_first", "raise_on_inner"):
+            return super().fn(fid, arity)
+        world = self
+
+        def impl(*args):
+            args = tuple(core.force(a) for a in args)
+            world.calls.append(f"c{fid}(" + ",".join(core.show(a) for a in args) + ")")
+            n = world.ncalls[fid] = world.ncalls.get(fid, 0) + 1
+            k = desc[0]
+            if k == "py":
+                try:
+                    return PYPREDS[desc[1]](args[0])
+                except Exception as e:     # noqa  the very object Python raised: it must end the cause chain
+                    world.raised.append(e)
+                    raise
+            if k == "count":
+                world.stamp_op[(fid, n)] = world.cur_op
+                return (core.Tag(fid), n) + args
+            if k == "raise_first":
+                if n <= desc[1]:
+                    e = core.exc_class(desc[2])("user code raises")
+                    world.raised.append(e)
+                    raise e
+                return (core.Tag(fid),) + args
+            bad = core.py_value(desc[1])
+            if any(_occurs(bad, a) for a in args):
+                e = core.exc_class(desc[2])("user code raises")
+                world.raised.append(e)
+                raise e
+            return (core.Tag(fid),) + args
+        impl.__name__ = impl.__qualname__ = f"fn{fid}"
+        self.fns[fid] = impl
+        return impl
 
     def cache(self, cid):
         if cid not in self.caches:
@@ -208,6 +560,75 @@ class World12(core.World):
                 _cls.set(self_, evaluatable, options, value)
             self.caches[cid] = type("Rec12", (type(base),), {"set": _set})()
         return self.caches[cid]
+
+
+def _occurs(bad, x):
+    if core._eq(x, bad) and type(x) is type(bad):
+        return True
+    if isinstance(x, (list, tuple)):
+        return any(_occurs(bad, y) for y in x)
+    if isinstance(x, dict):
+        return any(_occurs(bad, y) for y in x.values())
+    return False
+
+
+class RecContainer(_Container):
+    """a user container class: membership delegates to a set of the members (hashing an unhashable value raises
+    inside it) or raises a chosen class on a chosen value; the exception OBJECT is recorded"""
+
+    def __init__(self, world, members, raise_on=None, cls=None):
+        self.world, self.members, self.raise_on, self.cls = world, members, raise_on, cls
+
+    def __contains__(self, x):
+        try:
+            if self.cls is not None and core._eq(x, self.raise_on) and type(x) is type(self.raise_on):
+                raise core.exc_class(self.cls)("user container raises")
+            return x in self.members
+        except Exception as e:   # noqa
+            self.world.raised.append(e)
+            raise
+
+    def __deepcopy__(self, memo):      # labrea's Value hands out deep copies: the container is one shared object
+        return self
+
+    def __repr__(self):
+        return "RecContainer"
+
+
+class Builder12(core.Builder):
+    """core.Builder plus ("pydomain", kind, members, raise_on, cls): a Value holding a Python container"""
+
+    def build(self, e):
+        if e[0] == "pydomain":
+            from labrea.types import Value
+            members = [core.py_json(m) for m in e[2]]
+            kind = e[1]
+            if kind == "set":
+                c = set(members)
+            elif kind == "frozenset":
+                c = frozenset(members)
+            elif kind == "dict":
+                c = {m: True for m in members}
+            elif kind == "tuple":
+                c = tuple(members)
+            elif kind == "rec":
+                c = RecContainer(self.w, set(members))
+            else:
+                c = RecContainer(self.w, set(members), core.py_json(e[3]), e[4])
+            return Value(c)
+        return super().build(e)
+
+
+def impure(scn):
+    """user code with state (call counters, failing on the first k calls): deleting an evaluation from the history
+    legitimately changes what later evaluations compute, so the deletion clause does not apply"""
+    return any(d[0] in ("count", "raise_first") for d in scn["ftable"].values())
+
+
+def fresh(scn, idx):
+    """a freshly built copy of one expression of the scenario (its own world)"""
+    w = World12(scn["ftable"])
+    return Builder12(w, scn["env"]).build(scn["exprs"][idx])
 
 
 def chain_of(exc):
@@ -225,7 +646,7 @@ def run_history(scn, skip=None):
     import labrea.cache
     import labrea.logging
     w = World12(scn["ftable"])
-    b = core.Builder(w, scn["env"])
+    b = Builder12(w, scn["env"])
     objs = [b.build(e) for e in scn["exprs"]]
     recs = []
     for j, (m, i, cc, lc, o) in enumerate(scn["ops"]):
@@ -233,6 +654,8 @@ def run_history(scn, skip=None):
             recs.append(None)
             continue
         po = core.py_json(o)
+        w.cur_op = j
+        n_calls = len(w.calls)
         n_raised, n_sets = len(w.raised), len(w.sets)
         before = {cid: dict(c._cache) for cid, c in w.caches.items()}
         rec = dict(op=j, method=m, obj=objs[i], options=po, exc=None, phase="ok", raw=None)
@@ -255,6 +678,9 @@ def run_history(scn, skip=None):
                 elif m == "keys":
                     rec["phase"] = "keys"
                     rec["out"] = "ok:" + core.show_keys(objs[i].keys(po))
+                elif m in ("disable_effects", "enable_effects"):    # between evaluations, on the long-lived dataset
+                    getattr(objs[i], m)()
+                    rec["out"] = "ok:()"
                 else:
                     rec["phase"] = "explain"
                     rec["out"] = "ok:" + core.show_keys(objs[i].explain(po))
@@ -267,6 +693,7 @@ def run_history(scn, skip=None):
                 c, ee = core.classify(exc)
                 rec["out"] = f"err:{c}:{'T' if ee else 'F'}"
         rec["raised"] = w.raised[n_raised:]
+        rec["calls"] = w.calls[n_calls:]
         rec["sets"] = w.sets[n_sets:]
         rec["before"] = before
         rec["after"] = {cid: dict(c._cache) for cid, c in w.caches.items()}
@@ -453,9 +880,7 @@ def masked_original(scn, rec):
     X = rec["obj"]
     if not isinstance(X, Coalesce) or rec["phase"] != "evaluate":
         return None
-    w = core.World(scn["ftable"])
-    b = core.Builder(w, scn["env"])
-    Y = b.build(scn["exprs"][scn["ops"][rec["op"]][1]])
+    Y = fresh(scn, scn["ops"][rec["op"]][1])
     po = rec["options"]
     with labrea.cache.disabled():
         for m in Y.members[:-1]:
@@ -484,8 +909,7 @@ def coalesce_raw(scn, rec):
     import labrea.cache
     if not isinstance(rec["obj"], Coalesce):
         return None
-    w = core.World(scn["ftable"])
-    Y = core.Builder(w, scn["env"]).build(scn["exprs"][scn["ops"][rec["op"]][1]])
+    Y = fresh(scn, scn["ops"][rec["op"]][1])
     po = rec["options"]
     with labrea.cache.disabled():
         for m in Y.members:
@@ -516,8 +940,7 @@ def switch_rule(scn, rec):
     import labrea.cache
     if not isinstance(rec["obj"], Switch) or rec["phase"] == "consume":
         return None
-    w = core.World(scn["ftable"])
-    Y = core.Builder(w, scn["env"]).build(scn["exprs"][scn["ops"][rec["op"]][1]])
+    Y = fresh(scn, scn["ops"][rec["op"]][1])
     po = rec["options"]
     with labrea.cache.disabled():
         chosen, expected = None, None
@@ -551,6 +974,272 @@ def switch_rule(scn, rec):
                 expected = "err"
     got = rec["out"] if rec["exc"] is None else "err"
     return None if got == expected else dict(expected=expected[:200], got=got[:200])
+
+
+def _lookup_plain(po, keytext):
+    cur = po
+    for part in keytext.split("."):
+        cur = cur[part] if isinstance(cur, dict) else cur[int(part)]
+    return cur
+
+
+def _templated(x):
+    if isinstance(x, str):
+        return "{" in x or "}" in x or "\\" in x
+    if isinstance(x, (list, tuple)):
+        return any(_templated(y) for y in x)
+    if isinstance(x, dict):
+        return any(_templated(y) for y in x.values())
+    return False
+
+
+def option_rule(scn, rec, st=None):
+    """an Option evaluated at the root, recomputed by hand from a fresh copy's public attributes: the value is the
+    dictionary's (plain values only) or the default's; the domain test is `domain(value)` / `value in domain`
+    carried out HERE: when it raises, that exception (its class) is the end of the chain; when it is false the
+    evaluation fails with the library's ValueError; otherwise the value comes back"""
+    from collections.abc import Container
+    from labrea.option import Option
+    from labrea._missing import MISSING
+    import labrea.cache
+    if type(rec["obj"]) is not Option or rec["phase"] == "consume":
+        return None
+    Y = fresh(scn, scn["ops"][rec["op"]][1])
+    po = rec["options"]
+    with labrea.cache.disabled():
+        pres = present(po, Y.key)
+        if pres is None:
+            return None                       # a scalar parent (D6)
+        try:
+            if pres:
+                value = _lookup_plain(po, Y.key)
+                if _templated(value):
+                    return None               # templated values: the correspondence covers them
+            elif Y.default is MISSING:
+                return None                   # the missing-option clauses decide
+            else:
+                value = core.force(Y.default.evaluate(po))
+            if Y.domain is MISSING:
+                expected = ("ok",)
+            else:
+                d = Y.domain.evaluate(po)
+                if callable(d):
+                    test = lambda: d(value)           # noqa
+                elif isinstance(d, Container):
+                    test = lambda: value in d         # noqa
+                else:
+                    test = lambda: True               # noqa
+        except RecursionError:
+            return None
+        except Exception:  # noqa  the default / the domain expression itself fails: other clauses
+            return None
+        if Y.domain is not MISSING:
+            try:
+                expected = ("ok",) if test() else ("false",)
+            except RecursionError:
+                return None
+            except Exception as exc:  # noqa
+                expected = ("raises", type(exc))
+                if st is not None:
+                    st["root_option_domain_raises"] += 1
+    last = chain_of(rec["exc"])[-1] if rec["exc"] is not None else None
+    if expected[0] == "ok":
+        if rec["exc"] is None and core.show(rec["raw"]) == core.show(value):
+            return None
+        return dict(expected="ok:" + core.show(value)[:150], got=rec["out"][:150])
+    if expected[0] == "false":
+        if last is not None and isinstance(last, ValueError) and not hasattr(last, "labrea_verif_n"):
+            return None
+        return dict(expected="the domain test is false: a ValueError of the library ends the chain", got=rec["out"][:150],
+                    chain_end=type(last).__name__)
+    if last is not None and type(last) is expected[1]:
+        return None
+    return dict(expected=f"the domain test raises {expected[1].__name__}: that exception ends the chain", got=rec["out"][:150],
+                chain_end=type(last).__name__)
+
+
+def case_rule(scn, rec):
+    """case-when evaluated at the root, recomputed on a fresh copy with the public API: the cases in order, the
+    first whose predicate is true for the dispatched value gives the result; a predicate (or a condition
+    expression) that RAISES fails the evaluation -- it is not 'no match'; no case: the default, or failure"""
+    from labrea.conditional import CaseWhen
+    from labrea._missing import MISSING
+    import labrea.cache
+    if type(rec["obj"]) is not CaseWhen or rec["phase"] == "consume":
+        return None
+    Y = fresh(scn, scn["ops"][rec["op"]][1])
+    po = rec["options"]
+    expected = None
+    with labrea.cache.disabled():
+        try:
+            try:
+                v = core.force(Y.dispatch.evaluate(po))
+            except RecursionError:
+                raise
+            except Exception:  # noqa
+                expected = "err"
+            chosen = None
+            if expected is None:
+                for cond, res in Y.cases:
+                    try:
+                        if cond.evaluate(po)(v):
+                            chosen = res
+                            break
+                    except RecursionError:
+                        raise
+                    except Exception:  # noqa
+                        expected = "err"
+                        break
+            if expected is None:
+                if chosen is None:
+                    chosen = None if Y.default is MISSING else Y.default
+                if chosen is None:
+                    expected = "err"
+                else:
+                    try:
+                        expected = "ok:" + core.show(core.force(chosen.evaluate(po)))
+                    except RecursionError:
+                        raise
+                    except Exception:  # noqa
+                        expected = "err"
+        except RecursionError:
+            return None
+    got = rec["out"] if rec["exc"] is None else "err"
+    return None if got == expected else dict(expected=expected[:200], got=got[:200])
+
+
+def has_handlers(scn, idx):
+    """does the evaluated graph contain a construct that turns a failure into an attempt at something else
+    (coalesce, switch with a default, a dataset with dispatch and a default implementation)?"""
+    nodes = list(cp.sub_exprs(scn["exprs"][idx]))
+    if any(isinstance(t, tuple) and t and t[0] == "dataset" for t in nodes):
+        nodes += list(cp.sub_exprs(scn["env"]))
+        if any(d.get("dispatch") is not None for d in scn["env"].values()):
+            return True
+    for t in nodes:
+        if isinstance(t, tuple) and t and (t[0] == "coalesce" or (t[0] == "switch" and len(t) > 3 and t[3] is not None)):
+            return True
+    return False
+
+
+def first_raise_rule(scn, rec):
+    """graphs without handlers: the first exception that user code (body, step, callback, effect, predicate,
+    container) raises during an evaluation fails it, and that very object is the end of the cause chain"""
+    if not rec["raised"] or has_handlers(scn, scn["ops"][rec["op"]][1]):
+        return None
+    first = rec["raised"][0]
+    if rec["exc"] is None:
+        return dict(raised=type(first).__name__, got=rec["out"][:200],
+                    what="user code raised during the evaluation, yet the evaluation returned a value")
+    last = chain_of(rec["exc"])[-1]
+    if last is first:
+        return None
+    return dict(raised=type(first).__name__, chain_end=type(last).__name__, got=rec["out"][:200],
+                what="the exception object that user code raised first is not the end of the cause chain")
+
+
+def own_cache_of(scn, idx):
+    """(cache id, reason) of the cache that belongs to the root object of expression idx -- a dataset's cache, a
+    cached node's cache -- when nothing nested inside the root shares it; else None"""
+    e = scn["exprs"][idx]
+    env = scn["env"]
+
+    def base(dsid):
+        while env[dsid].get("derived") is not None:
+            dsid = env[dsid]["derived"]
+        return dsid
+
+    def inner_caches(x, seen):
+        out = set()
+        for t in cp.sub_exprs(x):
+            if not (isinstance(t, tuple) and t):
+                continue
+            if t[0] == "cached" and len(t) == 3 and t[1] is not None:
+                out.add(("c", t[1]))
+            elif t[0] == "dataset" and len(t) == 2 and isinstance(t[1], int) and t[1] in env:
+                b = base(t[1])
+                out.add(("d", b))
+                if b not in seen:
+                    seen.add(b)
+                    d = env[b]
+                    out |= inner_caches([d.get("kwargs", []), d.get("dispatch"), [x for _, x in d.get("overloads", [])],
+                                         d.get("callback"), d.get("effects", [])], seen)
+        return out
+    if e[0] == "dataset":
+        b = base(e[1])
+        d = env[b]
+        if d.get("cache", "mem") != "mem":
+            return None
+        inside = inner_caches([d.get("kwargs", []), d.get("dispatch"), [x for _, x in d.get("overloads", [])],
+                               d.get("callback"), d.get("effects", [])], {b})
+        return None if ("d", b) in inside else b
+    if e[0] == "cached" and e[1] is not None:
+        inside = inner_caches(e[2], set())
+        return None if ("c", e[1]) in inside or ("d", e[1]) in inside else e[1]
+    return None
+
+
+def own_store_failures(scn, rec):
+    """a FAILED evaluation of a dataset / of a cached node adds nothing to, and changes nothing in, the cache
+    of that very object (whatever succeeded inside it belongs to other caches)"""
+    if rec["phase"] != "evaluate":
+        return []
+    cid = own_cache_of(scn, scn["ops"][rec["op"]][1])
+    if cid is None:
+        return []
+    out = []
+    b, a = rec["before"].get(cid, {}), rec["after"].get(cid, {})
+    changed = [k for k in a if k not in b or a[k] is not b[k]]
+    n = sum(1 for s in rec["sets"] if s[0] == cid)
+    if changed or n:
+        out.append(f"cache {cid} belongs to the object whose evaluation failed, yet the failed evaluation stored {max(len(changed), n)} "
+                   f"entr{'y' if max(len(changed), n) == 1 else 'ies'} in it")
+    return out
+
+
+def stamps_in(v, fids, out):
+    if isinstance(v, tuple):
+        if len(v) >= 2 and isinstance(v[0], core.Tag) and v[0].f in fids and isinstance(v[1], int):
+            out.append((v[0].f, v[1]))
+        for x in v:
+            stamps_in(x, fids, out)
+    elif isinstance(v, list):
+        for x in v:
+            stamps_in(x, fids, out)
+    elif isinstance(v, dict):
+        for x in v.values():
+            stamps_in(x, fids, out)
+    return out
+
+
+def resurfacing(scn, recs, w):
+    """impure bodies stamp their values with their call counter: a value that the body of dataset D computed during an
+    evaluation OF D that failed must never be returned by a later evaluation (nothing of it was stored)"""
+    env = scn["env"]
+    body_of = {}
+    for dsid, d in env.items():
+        if d.get("derived") is None and scn["ftable"].get(d.get("fid"), ("tag",))[0] == "count":
+            body_of[d["fid"]] = dsid
+    out = []
+    if not body_of:
+        return out
+
+    def base(dsid):
+        while env[dsid].get("derived") is not None:
+            dsid = env[dsid]["derived"]
+        return dsid
+    for rec in recs:
+        if rec is None or rec["method"] != "evaluate" or rec["exc"] is not None:
+            continue
+        for (fid, n) in stamps_in(rec["raw"], set(body_of), []):
+            p = w.stamp_op.get((fid, n))
+            if p is None or p == rec["op"] or recs[p] is None or recs[p]["exc"] is None or recs[p]["phase"] != "evaluate":
+                continue
+            root = scn["exprs"][scn["ops"][p][1]]
+            if root[0] == "dataset" and base(root[1]) == body_of[fid]:
+                out.append((rec["op"], p, fid, n))
+                break
+    return out
 
 
 def set_key(o, key, v):
@@ -659,7 +1348,9 @@ def oracle(scn, marks=(), budget=None, model=None, impl_lines=None):
     viols = []
     st = dict(failing_evals=0, ok_evals=0, user_chain_ends=0, key_chain_ends=0, switch_case_ends=0, other_ends=0,
               deferred=0, sets_in_failing=0, deletions=0, deletion_ops_compared=0, supplies=0, supplies_ok=0,
-              unique_key_checked=0, c01_zone_skipped=0, masked_checked=0, raw_keyerror_ends=0)
+              unique_key_checked=0, c01_zone_skipped=0, masked_checked=0, raw_keyerror_ends=0,
+              root_options_recomputed=0, root_option_domain_raises=0, root_cases_recomputed=0, first_raise_checked=0,
+              own_cache_checked=0, stamped_values=0)
 
     def dirty_upto(j):
         return model is not None and any(cp.is_dirty(model[t]) for t in range(min(j + 1, len(model))))
@@ -683,6 +1374,31 @@ def oracle(scn, marks=(), budget=None, model=None, impl_lines=None):
             else:
                 add(j, "switch: the outcome is not that of the branch registered under the dispatch value / of the default when the "
                        "dispatch cannot be evaluated or is not registered", check="switch", **sr)
+        if type(rec["obj"]).__name__ == "Option" and rec["phase"] != "consume":
+            st["root_options_recomputed"] += 1
+            orr = option_rule(scn, rec, st)
+            if orr is not None:
+                if dirty_upto(j) and agrees(j):
+                    st["c01_zone_skipped"] += 1
+                else:
+                    add(j, "option: the outcome is not the one recomputed by hand (the dictionary's value or the default's, then the "
+                           "domain test: an exception raised by the test ends the cause chain, a false test is the library's ValueError)",
+                        check="option", **orr)
+        if type(rec["obj"]).__name__ == "CaseWhen" and rec["phase"] != "consume":
+            st["root_cases_recomputed"] += 1
+            crr = case_rule(scn, rec)
+            if crr is not None:
+                if dirty_upto(j) and agrees(j):
+                    st["c01_zone_skipped"] += 1
+                else:
+                    add(j, "case-when: the outcome is not that of the first case whose predicate is true for the dispatched value "
+                           "(a predicate that raises fails the evaluation; it is not 'no match')", check="case", **crr)
+        if rec["raised"]:
+            fr = first_raise_rule(scn, rec)
+            if not has_handlers(scn, scn["ops"][j][1]):
+                st["first_raise_checked"] += 1
+            if fr is not None:
+                add(j, "no handler in the graph: " + fr.pop("what"), check="first_raise", **fr)
         cr = coalesce_raw(scn, rec)
         if cr is not None:
             add(j, "coalesce: the attempt on a member raised an exception that is not an EvaluationError, yet the coalesce "
@@ -709,6 +1425,8 @@ def oracle(scn, marks=(), budget=None, model=None, impl_lines=None):
         else:
             st["other_ends"] += 1
         hard, soft = store_failures(rec, w)
+        if impure(scn):
+            soft = []      # re-evaluating an impure expression legitimately gives another value
         st["sets_in_failing"] += len(rec["sets"])
         for d in hard:
             add(j, d, check="store")
@@ -717,6 +1435,10 @@ def oracle(scn, marks=(), budget=None, model=None, impl_lines=None):
                 st["c01_zone_skipped"] += 1
             else:
                 add(j, d, check="store")
+        if rec["phase"] == "evaluate" and own_cache_of(scn, scn["ops"][j][1]) is not None:
+            st["own_cache_checked"] += 1
+        for d in own_store_failures(scn, rec):
+            add(j, d, check="own_store")
         mo = masked_original(scn, rec)
         if mo is not None:
             st["masked_checked"] += 1
@@ -733,6 +1455,12 @@ def oracle(scn, marks=(), budget=None, model=None, impl_lines=None):
                 st["unique_key_checked"] += 1
                 if u != k and not (k + ".").startswith(u + ".") and not (u + ".").startswith(k + "."):
                     add(j, f"exactly one option is missing ({u}) but the error names {k!r}", check="key")
+
+    # values computed by a failed evaluation never come back (impure, call-counting bodies)
+    st["stamped_values"] += len(w.stamp_op)
+    for (t, p_, fid, n_) in resurfacing(scn, recs, w):
+        add(t, f"the value returned was computed by the body (call {n_} of function {fid}) during op {p_}, an evaluation of the same "
+               f"dataset that FAILED: the failed evaluation stored it", check="resurfacing", computed_in=p_, got=recs[t]["out"][:200])
 
     # a failed evaluation changes no later outcome: the same history without it
     for j in failing[:budget["delete"]]:
@@ -823,6 +1551,12 @@ def run(ctx):
             continue
         scns.append(s2)
         marks.append(mk)
+    n_random = len(scns)
+    directed = gen_predicates(ctx.rng, 120 if ctx.quick else 1200) + gen_effects(ctx.rng, 80 if ctx.quick else 800)
+    for s in directed:
+        scns.append(s)
+        marks.append([])
+    extended = gen_extended(ctx.rng, 150 if ctx.quick else 1500)
     impls, models, mism, stats = cp.correspondence(ctx, scns, "Cases_C12")
     mism, tolerated = tolerate(mism, scns, models)
     violations, tagged, distinct = [], {}, set()
@@ -844,10 +1578,23 @@ def run(ctx):
             violations.append(x)
         if st["failing_evals"] and st["ok_evals"]:
             distinct.add(lib.stable_hash(cp.dump_scn(scn)))
+    # the stream the model cannot express: the oracle alone
+    ext_totals = {}
+    for scn in extended:
+        try:
+            v, st = oracle(scn, (), budget=dict(delete=0 if impure(scn) else (2 if ctx.quick else 3), unique=0))
+        except RecursionError:
+            continue
+        for k, x in st.items():
+            ext_totals[k] = ext_totals.get(k, 0) + x
+        violations.extend(v[:2])
+        if st["failing_evals"] and st["ok_evals"]:
+            distinct.add(lib.stable_hash(cp.dump_scn(scn)))
     # known finding: witness replay
     wv, _ = oracle(D20_WITNESS["scn"], model=models[len(fixed) - 1], impl_lines=impls[len(fixed) - 1])
     known = [dict(id="D20", still_fails=any(x.get("check") == "masked" for x in wv), what=D20_WITNESS["what"])]
-    oracle_checks = totals.get("failing_evals", 0) + totals.get("deletion_ops_compared", 0) + totals.get("supplies", 0)
+    oracle_checks = (totals.get("failing_evals", 0) + totals.get("deletion_ops_compared", 0) + totals.get("supplies", 0)
+                     + ext_totals.get("failing_evals", 0) + ext_totals.get("ok_evals", 0) + ext_totals.get("deletion_ops_compared", 0))
     return {
         "evaluations": stats["ops"] + oracle_checks,
         "distinct_nontrivial": len(distinct),
@@ -856,7 +1603,12 @@ def run(ctx):
                 "callables (bodies, pipeline steps, callbacks, effects, case and domain predicates) raise one of 8 exception types on a chosen "
                 "input or always; histories of 11+ operations (evaluate mostly) over a pool of adversarially perturbed dictionaries on one "
                 "long-lived graph, extended with 're-evaluate with the missing option supplied' operations; plus hand-written histories, one per "
-                "clause of the anchored code. non-trivial = the history contains at least one failing AND one succeeding evaluation; distinct by "
+                "clause of the anchored code; directed streams (also through the model): option domains / case-when predicates raising each "
+                "exception class on a chosen value or always, at the root and nested; cached datasets whose body / callback / effects raise, the "
+                "same dictionary evaluated again after the failure, with LABREA.EFFECTS.DISABLED, with the cache off, through a second dataset; "
+                "an oracle-only stream: container domains (set, frozenset, dict, tuple, user container classes) tested with unhashable values, "
+                "plain-Python predicates raising genuine exceptions, call-counting bodies with flaky effects, disable_effects()/enable_effects() "
+                "between evaluations. non-trivial = the history contains at least one failing AND one succeeding evaluation; distinct by "
                 "hash of the scenario",
         "samples": [dict(exprs=repr(s["exprs"])[:400], first_ops=[repr(o)[:160] for o in s["ops"][:3]], observed=il[:3])
                     for s, il in list(zip(scns, impls))[len(fixed):len(fixed) + 3]],
@@ -864,10 +1616,11 @@ def run(ctx):
         "correspondence_mismatches": mism[:5],
         "violations": violations,
         "known": known,
-        "distribution": dict(stats, scenarios=len(scns), oracle=totals, oracle_failures_tagged=tagged,
-                             correspondence_differences_tolerated=tolerated),
+        "distribution": dict(stats, scenarios=len(scns), random_scenarios=n_random - len(fixed), directed_scenarios=len(directed),
+                             oracle_only_scenarios=len(extended), oracle=totals, oracle_on_oracle_only_stream=ext_totals,
+                             oracle_failures_tagged=tagged, correspondence_differences_tolerated=tolerated),
         "exhaustive": False,
-        "assumptions": ["user code is deterministic and raises the exception classes of the harness (8 base classes incl. KeyError, TypeError, ValueError)",
+        "assumptions": ["in the streams that run through the model, user code is deterministic and raises the exception classes of the harness (8 base classes incl. KeyError, TypeError, ValueError)",
                         "cyclic template references excluded; floats not generated",
                         "exceptions leaving validate()/keys()/explain() are compared with the model only (they may be raw; not part of the property)",
                         "'later outcomes do not depend on the failed evaluation' is skipped inside the recorded stale-hit zones of C01 (model's dirty marker), "
@@ -879,6 +1632,12 @@ def run(ctx):
 
 def replay(ctx, payload):
     scn = cp.load_scn(payload["scenario_repr"])
+    if scn.get("ext"):      # the oracle-only stream: outside the model's universe
+        v, st = oracle(scn, budget=dict(delete=0 if impure(scn) else len(scn["ops"]), unique=0))
+        recs, _, _ = run_history(scn)
+        return bool([x for x in v if not x["finding"]]), dict(
+            oracle_failures=[{k: x[k] for k in x if k != "scenario_repr"} for x in v][:10],
+            impl=[r["out"] for r in recs], model="(not expressible in the model)", check=payload.get("check"))
     il = core.run_impl(scn)
     ml = ctx.coq_eval("Replay_C12", cp.REQ, "", [core.coq_scenario(scn)])[0].split(" ## ")
     v, st = oracle(scn, budget=dict(delete=len(scn["ops"]), unique=len(scn["ops"])), model=ml if len(ml) == len(il) else None, impl_lines=il)
